@@ -1,4 +1,4 @@
-use super::field_utils::{parse_name_and_address, parse_party_identifier};
+use super::field_utils::parse_name_and_address;
 use super::swift_utils::{parse_bic, parse_swift_chars};
 use crate::errors::ParseError;
 use crate::traits::SwiftField;
@@ -85,9 +85,18 @@ impl SwiftField for Field59F {
         let mut party_identifier = None;
         let mut start_idx = 0;
 
-        // Check for party identifier on first line
-        if let Some(party_id) = parse_party_identifier(lines[0])? {
-            party_identifier = Some(party_id);
+        // Account on the first line: [/34x] (any x characters, further slashes included)
+        if let Some(account) = lines[0].strip_prefix('/') {
+            if account.is_empty() || account.len() > 34 {
+                return Err(ParseError::InvalidFormat {
+                    message: format!(
+                        "Field 59F account must be 1 to 34 characters, found {}",
+                        account.len()
+                    ),
+                });
+            }
+            parse_swift_chars(account, "Field 59F account")?;
+            party_identifier = Some(account.to_string());
             start_idx = 1;
         }
 
